@@ -101,7 +101,11 @@ fn run_op(op: &str, shape: usize, n: usize) -> String {
                 let b = deep_jsonb(shape, n, 2);
                 let c = deep_jsonb(shape, n + 1, 1);
                 let d = deep_jsonb(shape, n.saturating_sub(1), 0);
-                match (jsonb::compare(&a, &b), jsonb::compare(&a, &c), jsonb::compare(&c, &a), jsonb::compare(&a, &d)) { (Ok(_), Ok(_), Ok(_), Ok(_)) => "ok", _ => "err" }
+                // nested arrays of different length at the same position: [[a, a]] against [[a]]
+                let wrap = |items: &[&[u8]]| { let mut o = vec![]; jsonb::build_array(items.iter().copied(), &mut o).map(|_| o) };
+                let nested = (|| { let x2 = wrap(&[&a, &a])?; let p = wrap(&[&x2])?; let x1 = wrap(&[&a])?; let q = wrap(&[&x1])?; Ok::<_, jsonb::Error>((p, q)) })();
+                let extra = match nested { Ok((p, q)) => jsonb::compare(&p, &q).is_ok() && jsonb::compare(&q, &p).is_ok(), Err(_) => false };
+                match (jsonb::compare(&a, &b), jsonb::compare(&a, &c), jsonb::compare(&c, &a), jsonb::compare(&a, &d)) { (Ok(_), Ok(_), Ok(_), Ok(_)) if extra => "ok", _ => "err" }
             }
             "get_by_path" => {
                 let a = deep_jsonb(shape, n, 1);
